@@ -609,6 +609,10 @@ def devirt(e):
         a = e[3][1]
         if isinstance(f, tuple) and f and f[0] == "fnitem" and isinstance(a, tuple) and a[:2] == ("agg", "tuple"):
             return ("call", f[1], f[2] if len(f) > 2 else None, tuple(a[3]), e[4])
+    if e[0] == "call" and e[1] == "push::push_vm::stack::HasStack::stack_mut":
+        # the trait's contract (and what every rule about the machine state already assumes): `stack_mut::<T>()` is the
+        # same stack as `stack::<T>()`, handed out mutably; obtaining the reference does nothing by itself
+        return ("call", "push::push_vm::stack::HasStack::stack", (e[2] or "").replace(">::stack_mut::<", ">::stack::<") or None, e[3], e[4])
     return e
 
 
